@@ -32,10 +32,10 @@ abbrev Pool := List (String × List CDR)   -- host -> consolidated rules (specif
 
 /-- `sortConfigBySelectorAndCreationTime` -/
 def sortDRs (l : List DR) : List DR :=
-  l.mergeSort fun a b =>
+  isort (fun a b =>
     if a.selector && !b.selector then true
     else if !a.selector && b.selector then false
-    else cfgLe a.ctime a.name a.ns b.ctime b.name b.ns
+    else cfgLe a.ctime a.name a.ns b.ctime b.name b.ns) l
 
 def setEq (a b : List String) : Bool := a.all (b.contains ·) && b.all (a.contains ·)
 def setSuperset (a b : List String) : Bool := b.all (a.contains ·)
